@@ -73,6 +73,9 @@ const (
 	// augment's own entry (its suite has `augment "../alpha"`), so demanding
 	// an error here would demand more than C07 states.
 	InvAugRelative = "aug-relative-path"
+	// InvAugBadPrefix: one step after the first is written with a prefix the
+	// text declares nowhere: the path names nothing.
+	InvAugBadPrefix = "aug-undeclared-prefix"
 	InvUsesCycle       = "uses-cycle"
 	InvTypedefCycle    = "typedef-cycle"
 	InvIdentityCycle   = "identity-cycle"
@@ -1171,6 +1174,9 @@ func (g *gen) augments() {
 			a.Invalid = InvAugRelative
 			am.Augments = append(am.Augments, a)
 			continue
+		case len(tg.steps) >= 2 && g.wantInvalid(InvAugBadPrefix):
+			a.BadPrefix = 1 + t.Intn(len(tg.steps)-1)
+			a.Invalid = InvAugBadPrefix
 		case g.wantInvalid(InvAugMissing):
 			a.Target = append(append([]Step(nil), tg.steps...), Step{tg.steps[len(tg.steps)-1].Mod, g.id("nosuchnode")})
 			a.Invalid = InvAugMissing
